@@ -13,9 +13,27 @@ theories/Sub/SubSpec.vos theories/Sub/SubSpec.vok theories/Sub/SubSpec.required_
 theories/Sub/SubProofs.vo theories/Sub/SubProofs.glob theories/Sub/SubProofs.v.beautified theories/Sub/SubProofs.required_vo: theories/Sub/SubProofs.v theories/Base/Hier.vo theories/Base/Ty.vo theories/Sub/Match.vo theories/Sub/SubSpec.vo
 theories/Sub/SubProofs.vio: theories/Sub/SubProofs.v theories/Base/Hier.vio theories/Base/Ty.vio theories/Sub/Match.vio theories/Sub/SubSpec.vio
 theories/Sub/SubProofs.vos theories/Sub/SubProofs.vok theories/Sub/SubProofs.required_vos: theories/Sub/SubProofs.v theories/Base/Hier.vos theories/Base/Ty.vos theories/Sub/Match.vos theories/Sub/SubSpec.vos
+theories/Infer/Store.vo theories/Infer/Store.glob theories/Infer/Store.v.beautified theories/Infer/Store.required_vo: theories/Infer/Store.v theories/Base/Hier.vo theories/Base/Ty.vo
+theories/Infer/Store.vio: theories/Infer/Store.v theories/Base/Hier.vio theories/Base/Ty.vio
+theories/Infer/Store.vos theories/Infer/Store.vok theories/Infer/Store.required_vos: theories/Infer/Store.v theories/Base/Hier.vos theories/Base/Ty.vos
+theories/Infer/Engine.vo theories/Infer/Engine.glob theories/Infer/Engine.v.beautified theories/Infer/Engine.required_vo: theories/Infer/Engine.v theories/Base/Hier.vo theories/Base/Ty.vo theories/Infer/Store.vo
+theories/Infer/Engine.vio: theories/Infer/Engine.v theories/Base/Hier.vio theories/Base/Ty.vio theories/Infer/Store.vio
+theories/Infer/Engine.vos theories/Infer/Engine.vok theories/Infer/Engine.required_vos: theories/Infer/Engine.v theories/Base/Hier.vos theories/Base/Ty.vos theories/Infer/Store.vos
+theories/Infer/Run.vo theories/Infer/Run.glob theories/Infer/Run.v.beautified theories/Infer/Run.required_vo: theories/Infer/Run.v theories/Base/Hier.vo theories/Base/Ty.vo theories/Infer/Store.vo theories/Infer/Engine.vo
+theories/Infer/Run.vio: theories/Infer/Run.v theories/Base/Hier.vio theories/Base/Ty.vio theories/Infer/Store.vio theories/Infer/Engine.vio
+theories/Infer/Run.vos theories/Infer/Run.vok theories/Infer/Run.required_vos: theories/Infer/Run.v theories/Base/Hier.vos theories/Base/Ty.vos theories/Infer/Store.vos theories/Infer/Engine.vos
+theories/Infer/Witness.vo theories/Infer/Witness.glob theories/Infer/Witness.v.beautified theories/Infer/Witness.required_vo: theories/Infer/Witness.v theories/Base/Hier.vo theories/Base/Ty.vo theories/Sub/Match.vo theories/Sub/SubSpec.vo theories/Sub/SubProofs.vo theories/Infer/Store.vo theories/Infer/Engine.vo
+theories/Infer/Witness.vio: theories/Infer/Witness.v theories/Base/Hier.vio theories/Base/Ty.vio theories/Sub/Match.vio theories/Sub/SubSpec.vio theories/Sub/SubProofs.vio theories/Infer/Store.vio theories/Infer/Engine.vio
+theories/Infer/Witness.vos theories/Infer/Witness.vok theories/Infer/Witness.required_vos: theories/Infer/Witness.v theories/Base/Hier.vos theories/Base/Ty.vos theories/Sub/Match.vos theories/Sub/SubSpec.vos theories/Sub/SubProofs.vos theories/Infer/Store.vos theories/Infer/Engine.vos
+theories/Infer/Check.vo theories/Infer/Check.glob theories/Infer/Check.v.beautified theories/Infer/Check.required_vo: theories/Infer/Check.v theories/Base/Hier.vo theories/Base/Ty.vo theories/Sub/Match.vo theories/Infer/Store.vo theories/Infer/Engine.vo theories/Infer/Run.vo theories/Infer/Witness.vo
+theories/Infer/Check.vio: theories/Infer/Check.v theories/Base/Hier.vio theories/Base/Ty.vio theories/Sub/Match.vio theories/Infer/Store.vio theories/Infer/Engine.vio theories/Infer/Run.vio theories/Infer/Witness.vio
+theories/Infer/Check.vos theories/Infer/Check.vok theories/Infer/Check.required_vos: theories/Infer/Check.v theories/Base/Hier.vos theories/Base/Ty.vos theories/Sub/Match.vos theories/Infer/Store.vos theories/Infer/Engine.vos theories/Infer/Run.vos theories/Infer/Witness.vos
 props/C01.vo props/C01.glob props/C01.v.beautified props/C01.required_vo: props/C01.v theories/Base/Hier.vo theories/Base/Ty.vo theories/Sub/Match.vo theories/Sub/SubSpec.vo theories/Sub/SubProofs.vo
 props/C01.vio: props/C01.v theories/Base/Hier.vio theories/Base/Ty.vio theories/Sub/Match.vio theories/Sub/SubSpec.vio theories/Sub/SubProofs.vio
 props/C01.vos props/C01.vok props/C01.required_vos: props/C01.v theories/Base/Hier.vos theories/Base/Ty.vos theories/Sub/Match.vos theories/Sub/SubSpec.vos theories/Sub/SubProofs.vos
 props/C02.vo props/C02.glob props/C02.v.beautified props/C02.required_vo: props/C02.v theories/Base/Hier.vo theories/Base/Ty.vo theories/Sub/Match.vo theories/Sub/SubSpec.vo theories/Sub/SubProofs.vo
 props/C02.vio: props/C02.v theories/Base/Hier.vio theories/Base/Ty.vio theories/Sub/Match.vio theories/Sub/SubSpec.vio theories/Sub/SubProofs.vio
 props/C02.vos props/C02.vok props/C02.required_vos: props/C02.v theories/Base/Hier.vos theories/Base/Ty.vos theories/Sub/Match.vos theories/Sub/SubSpec.vos theories/Sub/SubProofs.vos
+props/C03.vo props/C03.glob props/C03.v.beautified props/C03.required_vo: props/C03.v theories/Base/Hier.vo theories/Base/Ty.vo theories/Sub/Match.vo theories/Sub/SubSpec.vo theories/Infer/Store.vo theories/Infer/Engine.vo theories/Infer/Run.vo theories/Infer/Witness.vo theories/Infer/Check.vo
+props/C03.vio: props/C03.v theories/Base/Hier.vio theories/Base/Ty.vio theories/Sub/Match.vio theories/Sub/SubSpec.vio theories/Infer/Store.vio theories/Infer/Engine.vio theories/Infer/Run.vio theories/Infer/Witness.vio theories/Infer/Check.vio
+props/C03.vos props/C03.vok props/C03.required_vos: props/C03.v theories/Base/Hier.vos theories/Base/Ty.vos theories/Sub/Match.vos theories/Sub/SubSpec.vos theories/Infer/Store.vos theories/Infer/Engine.vos theories/Infer/Run.vos theories/Infer/Witness.vos theories/Infer/Check.vos
